@@ -878,6 +878,8 @@ type smallTables struct {
 	walkGate      string // rulesRunner.run walks the file: counter-nonzero | always
 	commentGate   string // ... and runs the comment rules: comments-nonempty | always
 	mergeStartsEmpty bool // mergeRuleSets appends every argument to a fresh empty set
+	mergeMode     string // "fresh" (the arguments are only read) | "in-place-first" (accumulates in its first argument)
+	mergeChecksGroups bool // ... and rejects a set whose group is there already (after appending the set's rules)
 	engineLoadOK  bool   // Engine.Load / LoadFromIR: first set taken as is, later ones merged after the present one
 	loadFileMergeOK bool // LoadFile: own rules first, then the sets of the imported bundle files in import order
 	runLoop    runLoopShape
@@ -1047,25 +1049,37 @@ func (l *wfLoader) readTables() (*smallTables, error) {
 	if mg == nil {
 		return nil, fmt.Errorf("mergeRuleSets not found")
 	}
-	mergeLoop := false
-	for _, s := range mg.Body.List {
-		if rs, ok := s.(*ast.RangeStmt); ok && wkSrc(fset, rs.Key) == "_" && len(rs.Body.List) >= 1 {
-			x := wkSrc(fset, rs.Value)
-			if wkSrc(fset, rs.Body.List[0]) == "out.universal = appendScopedRuleSet(out.universal, "+x+".universal)" && wkSrc(fset, rs.X) == mg.Type.Params.List[0].Names[0].Name {
-				mergeLoop = true
-			}
-		}
+	// mergeRuleSets: three statements -- where the result accumulates (a fresh empty set: the arguments are only read;
+	// or the first argument, in place), the loop over the (remaining) arguments in order: the set's rules are appended,
+	// then its groups are checked against the ones already there (first clash: `return nil, error`), and `return out, nil`
+	if len(mg.Body.List) != 3 || len(mg.Type.Params.List) != 1 || len(mg.Type.Params.List[0].Names) != 1 {
+		return nil, fmt.Errorf("mergeRuleSets: body is not `out := ...; for ... { ... }; return out, nil`")
 	}
-	if !mergeLoop {
+	argN := mg.Type.Params.List[0].Names[0].Name
+	first := wkSrc(fset, mg.Body.List[0])
+	rs, isRange := mg.Body.List[1].(*ast.RangeStmt)
+	if !isRange || wkSrc(fset, rs.Key) != "_" || rs.Value == nil || len(rs.Body.List) != 2 || wkSrc(fset, mg.Body.List[2]) != "return out, nil" {
+		return nil, fmt.Errorf("mergeRuleSets: loop over the rule sets / `return out, nil` not found")
+	}
+	switch {
+	case (strings.HasPrefix(first, "out := &goRuleSet{ universal: &scopedGoRuleSet{},") || strings.HasPrefix(first, "out := &goRuleSet{universal: &scopedGoRuleSet{},")) &&
+		strings.Contains(first, "groups: make(map[string]*GoRuleGroup)") && wkSrc(fset, rs.X) == argN:
+		t.mergeMode, t.mergeStartsEmpty = "fresh", true
+	case first == "out := "+argN+"[0]" && wkSrc(fset, rs.X) == argN+"[1:]":
+		t.mergeMode = "in-place-first"
+	default:
+		return nil, fmt.Errorf("mergeRuleSets: where the result accumulates is not understood: %s; range %s", first, wkSrc(fset, rs.X))
+	}
+	x := wkSrc(fset, rs.Value)
+	if wkSrc(fset, rs.Body.List[0]) != "out.universal = appendScopedRuleSet(out.universal, "+x+".universal)" {
 		return nil, fmt.Errorf("mergeRuleSets: does not append the rule sets in argument order")
 	}
-	if len(mg.Body.List) > 0 {
-		first := wkSrc(fset, mg.Body.List[0])
-		t.mergeStartsEmpty = strings.HasPrefix(first, "out := &goRuleSet{ universal: &scopedGoRuleSet{},") || strings.HasPrefix(first, "out := &goRuleSet{universal: &scopedGoRuleSet{},")
+	wantCheck := "for groupName, group := range " + x + ".groups { if prevGroup, ok := out.groups[groupName]; ok {"
+	chk := wkSrc(fset, rs.Body.List[1])
+	if !strings.HasPrefix(chk, wantCheck) || !strings.Contains(chk, "return nil, fmt.Errorf(") || !strings.HasSuffix(chk, "} out.groups[groupName] = group }") {
+		return nil, fmt.Errorf("mergeRuleSets: the redefinition check of the groups is not understood: %s", chk)
 	}
-	if !t.mergeStartsEmpty {
-		return nil, fmt.Errorf("mergeRuleSets: the result does not start as an empty set: %s", wkSrc(fset, mg.Body.List[0]))
-	}
+	t.mergeChecksGroups = true
 	// --- runner.go: the gates of rulesRunner.run
 	run := wkFindFunc(rf, "rulesRunner", "run")
 	if run == nil {
@@ -1492,6 +1506,7 @@ func walkerFamily(repo, which string) (string, error) {
 		fmt.Fprintf(&sb, "Definition gen_merge_count_mode : string := %q%%string.\nDefinition gen_merge_comments_mode : string := %q%%string.\n", t.mergeCount, t.mergeComments)
 		fmt.Fprintf(&sb, "Definition gen_walk_gate : string := %q%%string.\nDefinition gen_comment_gate : string := %q%%string.\n", t.walkGate, t.commentGate)
 		fmt.Fprintf(&sb, "Definition gen_load_counts_each_rule : bool := %v.\nDefinition gen_merge_starts_empty : bool := %v.\n", t.placeAppend, t.mergeStartsEmpty)
+		fmt.Fprintf(&sb, "(* mergeRuleSets: where the merged set accumulates; a set whose group is loaded already is rejected with an error *)\nDefinition gen_merge_mode : string := %q%%string.\nDefinition gen_merge_rejects_redefined_groups : bool := %v.\n", t.mergeMode, t.mergeChecksGroups)
 		fmt.Fprintf(&sb, "Definition gen_engine_load_first_direct_then_merge_after : bool := %v.\nDefinition gen_loadfile_merges_own_then_imported : bool := %v.\n", t.engineLoadOK, t.loadFileMergeOK)
 		for _, part := range []func(string) (string, error){wkPatternEnv, wkMatcherStateFlow} {
 			txt, err := part(repo)
@@ -1539,6 +1554,7 @@ func walkState(repo string) (string, error) {
 	type site struct{ field, where string }
 	var writes []site
 	var filterShape, wired string
+	var entrySites, recoverSites, wholeWrites []string
 	for _, e := range ents {
 		name := e.Name()
 		if e.IsDir() || !strings.HasSuffix(name, ".go") || strings.HasSuffix(name, "_test.go") || strings.HasPrefix(name, "verif_hooks") {
@@ -1575,6 +1591,47 @@ func walkState(repo string) (string, error) {
 			case *ast.KeyValueExpr:
 				if id, ok := n.Key.(*ast.Ident); ok && (id.Name == "deadcode" || id.Name == "currentFunc") {
 					writes = append(writes, site{id.Name, name + ":" + wkEnclosing(f, n.Pos()) + " (literal)"})
+				}
+			}
+			return true
+		})
+		// who starts a walk: every astWalker value (declaration, literal) and every .Walk( call outside ast_walker.go;
+		// who overwrites the filter parameters as a whole; who recovers from panics in this package
+		ast.Inspect(f, func(n ast.Node) bool {
+			switch n := n.(type) {
+			case *ast.ValueSpec:
+				if n.Type != nil && wkSrc(fset, n.Type) == "astWalker" && name != "ast_walker.go" {
+					entrySites = append(entrySites, name+":"+wkEnclosing(f, n.Pos())+":var")
+				}
+			case *ast.CompositeLit:
+				if n.Type != nil && wkSrc(fset, n.Type) == "astWalker" && name != "ast_walker.go" {
+					entrySites = append(entrySites, name+":"+wkEnclosing(f, n.Pos())+":literal")
+				}
+			case *ast.CallExpr:
+				if se, ok := n.Fun.(*ast.SelectorExpr); ok && se.Sel.Name == "Walk" && name != "ast_walker.go" {
+					if id, ok := se.X.(*ast.Ident); !ok || (id.Name != "gogrep" && id.Name != "ast") {
+						entrySites = append(entrySites, name+":"+wkEnclosing(f, n.Pos())+":Walk")
+					}
+				}
+				if id, ok := n.Fun.(*ast.Ident); ok && id.Name == "recover" && len(n.Args) == 0 {
+					recoverSites = append(recoverSites, name+":"+wkEnclosing(f, n.Pos()))
+				}
+			case *ast.AssignStmt:
+				for _, l := range n.Lhs {
+					lt := wkSrc(fset, l)
+					isAddr := false
+					if len(n.Rhs) == len(n.Lhs) {
+						for i := range n.Lhs {
+							if wkSrc(fset, n.Lhs[i]) == lt {
+								if u, ok := n.Rhs[i].(*ast.UnaryExpr); ok && u.Op == token.AND {
+									isAddr = true // a pointer to the parameters is handed on, nothing is overwritten
+								}
+							}
+						}
+					}
+					if !isAddr && (strings.HasSuffix(lt, ".filterParams") || lt == "*params" || lt == "*"+"w.filterParams") {
+						wholeWrites = append(wholeWrites, name+":"+wkEnclosing(f, n.Pos())+": "+wkSrc(fset, n))
+					}
 				}
 			}
 			return true
@@ -1632,6 +1689,12 @@ func walkState(repo string) (string, error) {
 		outside = append(outside, strconv.Quote(w.field+" @ "+w.where)+"%string")
 	}
 	fmt.Fprintf(&sb, "(* writes to the walk-scoped context outside astWalker.walk (a fresh filterParams literal leaves both at their zero value) *)\nDefinition gen_ctx_writes_outside_walker : list string := [%s].\n", strings.Join(outside, "; "))
+	sort.Strings(entrySites)
+	sort.Strings(recoverSites)
+	sort.Strings(wholeWrites)
+	fmt.Fprintf(&sb, "(* astWalker values and .Walk( calls outside ast_walker.go (package ruleguard, hooks excluded): who starts a walk over the shared filter parameters *)\nDefinition gen_walker_entry_sites : list string := %s.\n", wkCoqStrList(entrySites))
+	fmt.Fprintf(&sb, "(* assignments that overwrite the filter parameters as a whole *)\nDefinition gen_params_whole_writes : list string := %s.\n", wkCoqStrList(wholeWrites))
+	fmt.Fprintf(&sb, "(* recover() in package ruleguard: a walk can only be left early through a panic that nobody inside the run catches *)\nDefinition gen_recover_sites : list string := %s.\n", wkCoqStrList(recoverSites))
 	fmt.Fprintf(&sb, "Definition gen_deadcode_writes_in_walker : N := %d.\nDefinition gen_currentfunc_writes_in_walker : N := %d.\n", inWalker["deadcode"], inWalker["currentFunc"])
 	return sb.String(), nil
 }
@@ -1730,6 +1793,7 @@ func runnerState(repo string) (string, error) {
 		return "", fmt.Errorf("newRulesRunner not found")
 	}
 	stateVar := ""
+	nilPolicy := "none"
 	resetOnReuse := false
 	envUpdated := false
 	alias := map[string]string{} // local -> RunnerState field
@@ -1743,6 +1807,17 @@ func runnerState(repo string) (string, error) {
 			continue
 		}
 		if ifs, ok := s.(*ast.IfStmt); ok && stateVar != "" && ifs.Init == nil && wkSrc(fset, ifs.Cond) == stateVar+" == nil" {
+			// a run without a caller-provided state: a new state of its own (nobody else can have it), or one borrowed
+			// from somewhere -- and if so, given back when (a `defer` in newRulesRunner fires before the walk starts)
+			body := wkSrc(fset, ifs.Body)
+			switch {
+			case len(ifs.Body.List) == 1 && strings.HasPrefix(wkSrc(fset, ifs.Body.List[0]), stateVar+" = newRunnerState(") && !strings.Contains(body, "defer"):
+				nilPolicy = "fresh"
+			case strings.Contains(body, ".Get()") && strings.Contains(body, "defer") && strings.Contains(body, ".Put("):
+				nilPolicy = "pooled-early-release"
+			default:
+				nilPolicy = "other: " + body
+			}
 			// a nil state is replaced by a new one; a re-used state is Reset() first (further statements may follow)
 			if el, ok := ifs.Else.(*ast.BlockStmt); ok && len(ifs.Body.List) == 1 && len(el.List) >= 1 &&
 				strings.HasPrefix(wkSrc(fset, ifs.Body.List[0]), stateVar+" = newRunnerState(") &&
@@ -1805,6 +1880,39 @@ func runnerState(repo string) (string, error) {
 	}
 	fmt.Fprintf(&sb, "Definition gen_matcher_types_set_per_run : list (string * bool) := [%s].\n", strings.Join(typesRows, "; "))
 	fmt.Fprintf(&sb, "Definition gen_state_reset_when_reused : bool := %v.\n", resetOnReuse)
+	fmt.Fprintf(&sb, "(* where a run without RunContext.State gets its RunnerState from *)\nDefinition gen_nil_state_policy : string := %q%%string.\n", nilPolicy)
+	// newRunnerState: every part of the state is allocated by the call itself
+	nrs := wkFindFunc(rf, "", "newRunnerState")
+	allocFresh := false
+	if nrs != nil {
+		allocFresh = true
+		ast.Inspect(nrs.Body, func(n ast.Node) bool {
+			if cl, ok := n.(*ast.CompositeLit); ok && wkSrc(fset, cl.Type) == "RunnerState" {
+				for _, e := range cl.Elts {
+					kv, ok := e.(*ast.KeyValueExpr)
+					if !ok {
+						allocFresh = false
+						continue
+					}
+					v := wkSrc(fset, kv.Value)
+					okv := strings.HasPrefix(v, "gogrep.NewMatcherState()") || v == "gogrepState" || v == "gogrepSubState" || v == "newNodePath()" ||
+						v == "es.env.GetEvalEnv()" || v == "typematch.NewMatcherState()" || v == "&rulesRunner{}"
+					if !okv {
+						allocFresh = false
+					}
+				}
+			}
+			return true
+		})
+		for _, st := range nrs.Body.List {
+			t := wkSrc(fset, st)
+			if (strings.HasPrefix(t, "gogrepState :=") && t != "gogrepState := gogrep.NewMatcherState()") ||
+				(strings.HasPrefix(t, "gogrepSubState :=") && t != "gogrepSubState := gogrep.NewMatcherState()") {
+				allocFresh = false
+			}
+		}
+	}
+	fmt.Fprintf(&sb, "Definition gen_new_runner_state_allocates_all : bool := %v.\n", allocFresh)
 	fmt.Fprintf(&sb, "Definition gen_reused_state_env_updated : bool := %v.\n", envUpdated)
 	classify := func(e ast.Expr) string {
 		t := wkSrc(fset, e)
@@ -1879,6 +1987,51 @@ func runnerState(repo string) (string, error) {
 	tmReset := mi != nil && len(mi.Body.List) >= 1 && len(mi.Type.Params.List) >= 1 &&
 		wkSrc(fset, mi.Body.List[0]) == mi.Type.Params.List[0].Names[0].Name+".reset()"
 	fmt.Fprintf(&sb, "Definition gen_typematch_resets_bindings_per_match : bool := %v.\n", tmReset)
+	// the bindings a type-pattern match leaves in the state: the struct's fields, and reset() empties every one of them
+	// unconditionally (per field: `if len(state.F) != 0 { for k := range state.F { delete(state.F, k) } }`)
+	tmFields, ok := wkStructFields(tf, "MatcherState")
+	if !ok {
+		return "", fmt.Errorf("typematch.MatcherState not found")
+	}
+	fmt.Fprintf(&sb, "Definition gen_fields_typematch_MatcherState : list string := %s.\n", wkCoqStrList(tmFields))
+	tmr := wkFindFunc(tf, "MatcherState", "reset")
+	var cleared []string
+	if tmr != nil && len(tmr.Recv.List) == 1 && len(tmr.Recv.List[0].Names) == 1 {
+		rn := tmr.Recv.List[0].Names[0].Name
+		for _, st := range tmr.Body.List {
+			t := wkSrc(fset, st)
+			m := regexp.MustCompile(`^if len\(` + rn + `\.(\w+)\) != 0 \{ for k := range ` + rn + `\.(\w+) \{ delete\(` + rn + `\.(\w+), k\) \} \}$`).FindStringSubmatch(t)
+			if m == nil || m[1] != m[2] || m[2] != m[3] {
+				return "", fmt.Errorf("typematch.MatcherState.reset: statement not understood: %s", t)
+			}
+			cleared = append(cleared, m[1])
+		}
+	}
+	fmt.Fprintf(&sb, "Definition gen_typematch_reset_clears : list string := %s.\n", wkCoqStrList(cleared))
+	// runCommentRules: the match object (its capture list is only ever appended to) is declared inside the loop over the
+	// rules -- per rule --, or outside of it -- one for all the rules tried on a comment
+	rcr := wkFindFunc(rf, "rulesRunner", "runCommentRules")
+	if rcr == nil {
+		return "", fmt.Errorf("runCommentRules not found")
+	}
+	mScope := "none"
+	for _, st := range rcr.Body.List {
+		if wkSrc(fset, st) == "var m matchData" {
+			mScope = "loop"
+		}
+		if rs, ok := st.(*ast.RangeStmt); ok && strings.HasSuffix(wkSrc(fset, rs.X), ".commentRules") {
+			if len(rs.Body.List) > 0 && wkSrc(fset, rs.Body.List[0]) == "var m matchData" {
+				if mScope == "loop" {
+					return "", fmt.Errorf("runCommentRules: two match objects")
+				}
+				mScope = "iteration"
+			}
+		}
+	}
+	if mScope == "none" {
+		return "", fmt.Errorf("runCommentRules: `var m matchData` not found at the top of the function or of the rule loop")
+	}
+	fmt.Fprintf(&sb, "(* runCommentRules: where the match object of a comment rule is declared *)\nDefinition gen_comment_match_scope : string := %q%%string.\n", mScope)
 	qf, err := parse("ruleguard/quasigo/quasigo.go")
 	if err != nil {
 		return "", err
